@@ -888,13 +888,34 @@ func (w *walker) binop(s *state, op token.Token, x, y *Term, typ types.Type) *Te
 		}
 		return r
 	case token.LSS:
+		if r := lenPositive(x, y); r != nil {
+			return r
+		}
 		return mk("<", x, y)
 	case token.GTR:
+		if r := lenPositive(y, x); r != nil {
+			return r
+		}
 		return mk("<", y, x)
 	case token.GEQ:
 		return not(mk("<", x, y))
 	case token.LEQ:
 		return not(mk("<", y, x))
+	}
+	// x * 2^k is x << k (one normal form for scaling by a power of two)
+	if op == token.MUL {
+		for _, pr := range [][2]*Term{{x, y}, {y, x}} {
+			if c := pr[1]; c.IsConst() && c.C.Kind() == constant.Int && !pr[0].IsConst() {
+				if n, ok := constant.Uint64Val(c.C); ok && n >= 2 && n&(n-1) == 0 {
+					k := 0
+					for n > 1 {
+						n >>= 1
+						k++
+					}
+					return mk("<<", pr[0], constTerm(constant.MakeInt64(int64(k))))
+				}
+			}
+		}
 	}
 	// (x − c) + c = x (the index of a rotated range loop)
 	if op == token.ADD && x.Op == "-" && len(x.Args) == 2 && x.Args[1].IsConst() && y.IsConst() && constant.Compare(x.Args[1].C, token.EQL, y.C) {
@@ -925,6 +946,14 @@ var Commutative = map[string]bool{
 	"subtle.ConstantTimeCompare": true, "subtle.ConstantTimeCompareBytes": true, "subtle.ConstantTimeCompareByte": true, "subtle.ConstantTimeByteEq": true,
 	"bytes.Equal": true, "EdwardsPoint.Equal": true, "RistrettoPoint.Equal": true, "MontgomeryPoint.Equal": true,
 	"CompressedEdwardsY.Equal": true, "CompressedRistretto.Equal": true,
+}
+
+// lenPositive: 0 < len(x) is ¬(len(x) == 0) (lengths are never negative).
+func lenPositive(lo, hi *Term) *Term {
+	if lo.IsConst() && lo.C.Kind() == constant.Int && constant.Sign(lo.C) == 0 && (hi.Op == "len" || hi.Op == "cap") {
+		return not(mk("==", hi, lo))
+	}
+	return nil
 }
 
 // nonNilByConstruction: errors made by fmt.Errorf / errors.New.
